@@ -7,7 +7,8 @@ Mutable Loki objects are **cells** of a heap addressed by natural numbers (the m
 * `node sc syms kids`       — an IR `Node`: a leaf statement (`syms` = the `TypedSymbol` occurrences of its expressions),
                               a `Section`/`Loop`/… (`kids`), or a `ScopedNode` (`Associate`, `TypeDef`) when
                               `sc = some (table, weak parent scope)`;
-* `unit isMod name par tab secs mems` — a `Subroutine`/`Module`: weak `_parent`, own `symbol_attrs`, the sections
+* `unit isMod name attrs par tab secs mems` — a `Subroutine`/`Function`/`Module`: the plain constructor attributes (`prefix`, `bind`,
+                              dummy argument names, `result_name`, access specs, … as strings), weak `_parent`, own `symbol_attrs`, the sections
                               (`spec`, `body`, the `contains` section without its program units) and the contained program units.
 
 Immutable values are not cells: `Sym` (a `TypedSymbol`: name + weak reference to its scope — a `unit` or a scoped `node`),
@@ -49,7 +50,7 @@ deriving DecidableEq, Repr, Inhabited
 inductive Cell where
   | tab (par : Option Addr) (ents : List (String × Ty))
   | node (lbl : String) (sc : Option (Addr × Option Addr)) (syms : List Sym) (kids : List Addr)
-  | unit (isMod : Bool) (name : String) (par : Option Addr) (tab : Addr) (secs : List Addr) (mems : List Addr)
+  | unit (isMod : Bool) (name : String) (attrs : List String) (par : Option Addr) (tab : Addr) (secs : List Addr) (mems : List Addr)
 deriving DecidableEq, Repr, Inhabited
 
 /-- `unres`: ghost flag, set when a rescoping step met a symbol that no scope of the new chain declares -/
@@ -76,7 +77,7 @@ end Heap
 /-- the symbol table of a scope object -/
 def tabOf (h : Heap) (s : Addr) : Option Addr :=
   match h.get s with
-  | some (.unit _ _ _ t _ _) => some t
+  | some (.unit _ _ _ _ t _ _) => some t
   | some (.node _ (some (t, _)) _ _) => some t
   | _ => none
 
@@ -87,7 +88,7 @@ def entsOf (h : Heap) (t : Addr) : List (String × Ty) :=
 
 def parOf (h : Heap) (s : Addr) : Option Addr :=
   match h.get s with
-  | some (.unit _ _ p _ _ _) => p
+  | some (.unit _ _ _ p _ _ _) => p
   | some (.node _ (some (_, p)) _ _) => p
   | _ => none
 
@@ -206,14 +207,14 @@ def copyUnit (m : Mode) : Nat → Heap → (parent : Option Addr) → Addr → H
   | 0, h, _, _ => h.alloc m.tag (.node "" none [] [])
   | f + 1, h, parent, u =>
     match h.get u with
-    | some (.unit isMod name _ t secs mems) =>
+    | some (.unit isMod name attrs _ t secs mems) =>
       let r1 := h.alloc m.tag (.tab (parent.bind (tabOf h)) (copyEnts m (entsOf h t)))
-      let r2 := r1.1.alloc m.tag (.unit isMod name parent r1.2 [] [])
+      let r2 := r1.1.alloc m.tag (.unit isMod name attrs parent r1.2 [] [])
       let chain := r2.2 :: chainOf (f + 1) r2.1 parent
       -- contained program units first: they register themselves in the new table
       let r3 := thread (fun h k => copyUnit m f h (some r2.2) k) r2.1 mems
       let r4 := thread (fun h k => copyNode m (f + 1) h chain k) r3.1 secs
-      let h5 := r4.1.set r2.2 (.unit isMod name parent r1.2 r4.2 r3.2)
+      let h5 := r4.1.set r2.2 (.unit isMod name attrs parent r1.2 r4.2 r3.2)
       -- register_in_parent_scope (also done by `__setstate__` of the enclosing unit for its members)
       (register h5 parent name r2.2, r2.2)
     | _ => h.alloc m.tag (.node "" none [] [])
@@ -235,6 +236,7 @@ inductive Op where
   | setsec (path : List Nat) (k : Nat) (stmts : List (List String)) (dcode : Nat)  -- `unit.body = Section(new statements)`; dcode = code of DEFERRED
   | addvar (path : List Nat) (var : String) (code : Nat)        -- `unit.variables += (Variable(var, type, scope=unit),)`
   | retypeNode (path : List Nat) (k : Nat) (var : String) (code : Nat)   -- k-th scoped node of the unit: `node.symbol_attrs[var] = …`
+  | touch (path : List Nat)       -- `comment._update(text=…)` on a Comment of the unit (docstring, spec, body): comment text is not part of the abstraction
 deriving Repr
 
 /-- follow `unit.members[i]` along a path -/
@@ -242,7 +244,7 @@ def navigate (h : Heap) : List Nat → Addr → Option Addr
   | [], u => some u
   | i :: r, u =>
     match h.get u with
-    | some (.unit _ _ _ _ _ mems) =>
+    | some (.unit _ _ _ _ _ _ mems) =>
       match mems[i]? with
       | some u' => navigate h r u'
       | none => none
@@ -285,15 +287,16 @@ def scopedBelow : Nat → Heap → Addr → List Addr
 
 def secsLen (h : Heap) (u : Addr) : Nat :=
   match h.get u with
-  | some (.unit _ _ _ _ secs _) => secs.length
+  | some (.unit _ _ _ _ _ secs _) => secs.length
   | _ => 0
 
 def applyOp (f : Nat) (tag : Nat) (h : Heap) (root : Addr) : Op → Heap
+  | .touch _ => h
   | .rename path name =>
     match navigate h path root with
     | some u =>
       match h.get u with
-      | some (.unit isMod _ p t secs mems) => h.set u (.unit isMod name p t secs mems)
+      | some (.unit isMod _ attrs p t secs mems) => h.set u (.unit isMod name attrs p t secs mems)
       | _ => h
     | none => h
   | .retype path var code =>
@@ -309,7 +312,7 @@ def applyOp (f : Nat) (tag : Nat) (h : Heap) (root : Addr) : Op → Heap
         let (h1, kids) := mkStmts f tag dcode u h stmts
         let (h2, s) := h1.alloc tag (.node "Section" none [] kids)
         match h2.get u with
-        | some (.unit isMod name p t secs mems) => h2.set u (.unit isMod name p t (secs.set k s) mems)
+        | some (.unit isMod name attrs p t secs mems) => h2.set u (.unit isMod name attrs p t (secs.set k s) mems)
         | _ => h2
       else h
     | none => h
@@ -317,7 +320,7 @@ def applyOp (f : Nat) (tag : Nat) (h : Heap) (root : Addr) : Op → Heap
     match navigate h path root with
     | some u =>
       match h.get u with
-      | some (.unit _ _ _ t secs _) =>
+      | some (.unit _ _ _ _ t secs _) =>
         match secs.head? with
         | some spec =>
           match h.get spec with
@@ -333,7 +336,7 @@ def applyOp (f : Nat) (tag : Nat) (h : Heap) (root : Addr) : Op → Heap
     match navigate h path root with
     | some u =>
       match h.get u with
-      | some (.unit _ _ _ _ secs _) =>
+      | some (.unit _ _ _ _ _ secs _) =>
         match (secs.flatMap (scopedBelow f h))[k]? with
         | some n => match tabOf h n with
           | some t => setTab h t var code
@@ -354,7 +357,7 @@ deriving DecidableEq, Repr
 /-- name of a scope object: the unit's name or the node's class -/
 def scopeName (h : Heap) (s : Addr) : String :=
   match h.get s with
-  | some (.unit _ name _ _ _ _) => name
+  | some (.unit _ name _ _ _ _ _) => name
   | some (.node lbl _ _ _) => lbl
   | _ => "?"
 
@@ -374,8 +377,8 @@ def render : Nat → Heap → Addr → List Out
   | 0, _, _ => []
   | f + 1, h, u =>
     match h.get u with
-    | some (.unit _ name _ t secs mems) =>
-      [Out.opn, Out.name name] ++ (entsOf h t).map (fun e => Out.ent e.1 e.2.code)
+    | some (.unit _ name attrs _ t secs mems) =>
+      [Out.opn, Out.name name] ++ attrs.map Out.name ++ (entsOf h t).map (fun e => Out.ent e.1 e.2.code)
       ++ secs.flatMap (renderNode (f + 1) h) ++ mems.flatMap (render f h) ++ [Out.cls]
     | _ => []
 
